@@ -32,6 +32,9 @@ func (sa *Safe) step(fr *frame, st *State, ins ssa.Instruction) {
 		o := sa.mObj(fr, exprText(x), false)
 		elem := x.Type().(*types.Pointer).Elem()
 		// (re-)initialise to the zero value
+		sa.initialising = true
+		defer func() { sa.initialising = false }()
+		delete(st.written, o)
 		sa.havoc(st, o, "")
 		z := sa.zero(st, elem)
 		if z.Kind == avStruct {
@@ -172,6 +175,7 @@ func (sa *Safe) step(fr *frame, st *State, ins ssa.Instruction) {
 			sa.oblige("safe.makeslice", fr.fn, what, x.Pos(), false, "length not tracked")
 		}
 		o := sa.mObj(fr, what, false)
+		delete(st.written, o)
 		sy := sa.mSym(fr, what)
 		st.nils[sy] = nilNo
 		var max int64 = posInf
